@@ -35,23 +35,22 @@ def toks_of(text):
     return out
 
 
-def _limits():
-    # a preprocessor run on these tiny inputs needs milliseconds of CPU: a run that burns 3 s of CPU time or
-    # 1 GB (runaway #include recursion) is killed and counts as a failed run, independent of machine load
-    import resource
-    resource.setrlimit(resource.RLIMIT_CPU, (3, 3))
-    resource.setrlimit(resource.RLIMIT_AS, (1 << 30, 1 << 30))
-
-
 def run_E(cc, argv, cwd, timeout=30, env=None):
+    """chibicc -E under vt.run_limited: a preprocessor run on these tiny inputs needs milliseconds of CPU, so a run
+    that burns 3 s of CPU time or 1 GB (runaway #include recursion) is killed and counts as a failed run,
+    independent of machine load; a wall timeout is retried once and is then infrastructure trouble"""
     for tmo in (timeout, 10 * timeout):
-        try:
-            p = subprocess.run([cc, "-E"] + argv, cwd=cwd, capture_output=True, text=True, timeout=tmo, env=env,
-                               errors="replace", preexec_fn=_limits)
+        p = vt.run_limited([cc, "-E"] + argv, timeout=tmo, mem_gb=1, cpu_s=3, cwd=cwd, env=env, errors="replace")
+        if p.returncode != -999:
             return p.returncode, p.stdout, p.stderr
-        except subprocess.TimeoutExpired:
-            continue
     raise Infra("chibicc -E %s did not finish within %ds" % (" ".join(argv)[-200:], 10 * timeout))
+
+
+CONFIRMED = {}      # sig -> number of cases in which gcc sided with the specification
+
+
+def settled(sig):
+    return CONFIRMED.get(sig, 0) >= 3
 
 
 def gcc_E(argv, cwd):
@@ -161,13 +160,15 @@ def replay_cond(ctx, tree, cases, batch=150):
                 sig, what = "cond:rejected", "chibicc -E rc=%s: %s" % (rc, err)
             else:
                 sig, what = cond_sig(c, got), "expected %s got %s" % (c["exp"], got)
-            # tie-break: is the specification right about this input?
-            open(d + "/g%d.c" % i, "w").write(text)
-            grc, gg = gcc_E([d + "/g%d.c" % i], d)
-            os.unlink(d + "/g%d.c" % i)
-            if grc != 0 or gg != c["exp"]:
-                ctx.oracle_disagreements += 1
-                continue
+            # tie-break: is the specification right about this input?  (not repeated once a class is settled)
+            if not settled(sig):
+                open(d + "/g%d.c" % i, "w").write(text)
+                grc, gg = gcc_E([d + "/g%d.c" % i], d)
+                os.unlink(d + "/g%d.c" % i)
+                if grc != 0 or gg != c["exp"]:
+                    ctx.oracle_disagreements += 1
+                    continue
+                CONFIRMED[sig] = CONFIRMED.get(sig, 0) + 1
             ctx.report(sig, "directive sequence\n%s%s" % (text, what), case=dict(kind="cond", case=c, text=text, got=got))
     ctx.cov["traces_validated_against_impl"] += len(cases)
 
@@ -263,7 +264,7 @@ def replay_incl(ctx, tree, behs, oracle_only=False):
         rc, out, err = run_E(cdir + "/bin/chibicc", argv, cdir + "/d0")
         got = toks_of(out)
         g = None
-        if rc != 0 or got != b["exp"]:
+        if (rc != 0 or got != b["exp"]) and not settled(incl_sig(b, rc, err, got)):
             g = gcc_E(gargv, cdir + "/d0")
         shutil.rmtree(cdir, ignore_errors=True)
         return i, rc, got, err[-400:], g
@@ -278,10 +279,13 @@ def replay_incl(ctx, tree, behs, oracle_only=False):
                       nontrivial=len(b["exp"]) > 1)
         if rc == 0 and got == b["exp"]:
             continue
-        if g[0] != 0 or g[1] != b["exp"]:
-            ctx.oracle_disagreements += 1
-            continue
-        ctx.report(incl_sig(b, rc, err, got),
+        sig = incl_sig(b, rc, err, got)
+        if g is not None:
+            if g[0] != 0 or g[1] != b["exp"]:
+                ctx.oracle_disagreements += 1
+                continue
+            CONFIRMED[sig] = CONFIRMED.get(sig, 0) + 1
+        ctx.report(sig,
                    "include scenario %s kinds=%s pre=%s main=%s files=%s: expected %s, chibicc -E rc=%s got %s %s" % (
                        b["shape"], b["kinds"], b["pre"], b["main"], [(f["d"], f["n"]) for f in b["files"]], b["exp"], rc, got, err[-200:]),
                    case=dict(kind="incl", beh=b, got=got, rc=rc))
@@ -411,13 +415,6 @@ def replay_ifexpr(ctx, tree, exprs, tag, batch=100):
             ctx.note_case("ifexpr:" + e, nontrivial=True)
             if rc == 0 and got == exp:
                 continue
-            f = "%s/g%d.c" % (d, k)
-            open(f, "w").write("\n".join(pre + ifexpr_case_text(k, e, v, u)) + "\n")
-            grc, gg = gcc_E([f], d)
-            os.unlink(f)
-            if grc != 0 or gg != ["E%d" % k, "v", "E%d" % k, exp[1]]:
-                ctx.oracle_disagreements += 1
-                continue
             if rc != 0:
                 cls = "rejected"
             elif got[:1] != ["v"]:
@@ -425,7 +422,17 @@ def replay_ifexpr(ctx, tree, exprs, tag, batch=100):
             else:
                 cls = "signedness"
             neg = "neg" if (v < 0 or "-" in e or "~" in e) else "nonneg"
-            ctx.report("ifexpr:%s:%s:%s:%s" % (tag, cls, "unsigned" if u else "signed", neg),
+            sig = "ifexpr:%s:%s:%s:%s" % (tag, cls, "unsigned" if u else "signed", neg)
+            if not settled(sig):
+                f = "%s/g%d.c" % (d, k)
+                open(f, "w").write("\n".join(pre + ifexpr_case_text(k, e, v, u)) + "\n")
+                grc, gg = gcc_E([f], d)
+                os.unlink(f)
+                if grc != 0 or gg != ["E%d" % k, "v", "E%d" % k, exp[1]]:
+                    ctx.oracle_disagreements += 1
+                    continue
+                CONFIRMED[sig] = CONFIRMED.get(sig, 0) + 1
+            ctx.report(sig,
                        "#if %s: expected value %d (%s), chibicc says %s %s" % (e, v, "uintmax_t" if u else "intmax_t", got, err),
                        case=dict(kind="ifexpr", tag=tag, expr=[e, v, u]))
     ctx.cov["traces_validated_against_impl"] += len(exprs)
